@@ -9,12 +9,13 @@ TB = ("Trusted: Coq 8.16.1 kernel + vm_compute; no axioms (Print Assumptions: cl
 
 CHECKS = {
  "C01": dict(
-   text="PARTIAL proof + evaluation. Coq theorems (all inputs) for each ingredient of sign-then-verify: the hint rule (make_hint/use_hint round trip for every w1 and |a0| < 2*gamma2), "
-        "every emitted signature is the packing of a z with ||z|| < gamma1-beta and a 0/1 hint vector of weight <= omega (so the verifier's gate passes), the hint and z codecs round-trip, "
-        "signer and verifier frame identically. The ring identity linking the signer's and verifier's NTT-domain computations is not yet a theorem and termination is unprovable; that link is "
-        "decided by execution: ~10^5 crate sign/verify round trips per run over all sets, modes, message lengths straddling SHAKE blocks, contexts, reused buffers, seeded and unseeded keys, "
-        "cross-checked with an independent verifier/signer, plus sign/verify chains replayed in the model.",
-   ref="DESIGN.md section 3 C01 and section 12", technique="Coq proofs of the ingredients (partial) + differential execution + volume self-verification"),
+   text="Coq theorem (six sets, every 32-byte seed or 32 drawn bytes, every message, context <= 255 bytes, both pre-hashes, deterministic and hedged/randomized): whenever signing "
+        "returns a signature it has exactly the advertised length and verification under the matching key, message, context and mode returns true (PSignVerify.sign_then_verify and its "
+        "API-level corollaries; composes keygen = spec, the signer's inversion lemmas, the verifier's pipeline semantics, the hint rule, the codecs). Not provable by any technique: that "
+        "signing always terminates (rejection sampling on hash output) - it is the hypothesis; the check runs the crate under a watchdog. Tied to the code by ~10^5 crate sign/verify round "
+        "trips per run over all sets, modes, message lengths straddling SHAKE blocks, contexts, reused buffers, seeded and unseeded keys, cross-checked with an independent verifier/signer, "
+        "and sign/verify chains replayed in the model.",
+   ref="DESIGN.md section 3 C01 and 12.2", technique="Coq proof (sign-then-verify for the model) + differential execution + volume self-verification"),
  "C02": dict(
    text="PARTIAL by nature: rejection of altered data rests on SHAKE-256 collision resistance / SelfTargetMSIS. Coq theorems for the structural part: length gate (truncation/extension rejected), "
         "acceptance only through the strict decoder and the z-norm gate, comparison of ALL challenge bytes, verdict depends only on the decoded triple. The negatives are evaluated: every "
